@@ -126,6 +126,9 @@ CASES = [
     ("io-loglevel-default-dropped", ["C19"], "io.py", "    _output[\"log_level\"] = _output.get(\"log_level\", \"WARNING\")", "    if \"log_level\" in _output:\n        _output[\"log_level\"] = str(_output[\"log_level\"])", M),
     ("io-fabric-lowercase", ["C19"], "io.py", "_core.MineralFabric, \"olivine_\" + _params[\"initial_olivine_fabric\"]", "_core.MineralFabric, \"olivine_\" + _params[\"initial_olivine_fabric\"].lower()", M),
     ("io-coefficients-too-many-accepted", ["C19"], "io.py", "    if n_provided != n_required:", "    if n_provided < n_required - 5:", M),
+    ("stats-density-normalised-by-sum", ["C20"], "stats.py", "    totals /= totals.mean()\n", "    totals /= totals.sum()\n", M),
+    ("stats-density-clip-before-normalise", ["C20"], "stats.py", "    totals /= totals.mean()\n    totals[totals < 0] = 0\n", "    totals[totals < 0] = 0\n    totals /= totals.mean()\n", M),
+    ("stats-density-first-datum-only", ["C20"], "stats.py", "        totals[i] = (density.sum() - 0.5) / scale", "        totals[i] = (density[0] * density.size - 0.5) / scale", M),
     # ---------------- benign refactors (must stay silent)
     ("benign-rename-locals", ["C02", "C03"], "core.py", "    invariants = np.zeros(4)\n    for i in range(3):\n        for j in range(3):\n            # (010)[100]\n            invariants[0] +=",
      "    invariants = np.zeros(4)\n    for i in range(3):\n        for j in range(3):\n            # slip system (010)[100]\n            invariants[0] +=", B),
@@ -158,6 +161,14 @@ CASES = [
     ("benign-corner-factor", ["C18"], "velocity.py", "    prefactor = 4 * plate_speed / (np.pi * (h**2 + v**2) ** 2)", "    r2 = h**2 + v**2\n    prefactor = 4 * plate_speed / (np.pi * r2 * r2)", B),
     ("benign-config-local", ["C19"], "io.py", "    n_provided = len(_params[\"disl_coefficients\"])", "    coeffs = _params[\"disl_coefficients\"]\n    n_provided = len(coeffs)", B),
     ("benign-gbs-where", ["C09", "C01"], "utils.py", "    fractions[mask] = gbs_threshold / n_grains\n", "    fractions[:] = np.where(mask, gbs_threshold / n_grains, fractions)\n", B),
+    ("benign-density-axial-ifexp", ["C20"], "stats.py", "        if axial:\n            products = np.abs(products)\n", "        products = np.abs(products) if axial else products\n", B),
+    ("benign-density-kernel-lookup-hoisted", ["C20"], "stats.py", "    weights = np.asarray(weights, dtype=np.float64)\n", "    weights = np.asarray(weights, dtype=np.float64)\n    kernel_func = SPHERICAL_COUNTING_KERNELS[kernel]\n", B),
+    ("benign-density-weighted-sum", ["C20"], "stats.py", "        density *= weights\n        totals[i] = (density.sum() - 0.5) / scale", "        totals[i] = (np.sum(density * weights) - 0.5) / scale", B),
+    ("benign-density-clip-maximum", ["C20"], "stats.py", "    totals[totals < 0] = 0\n", "    totals = np.maximum(totals, 0)\n", B),
+    ("benign-density-mean-local", ["C20"], "stats.py", "    totals /= totals.mean()\n", "    mean_total = totals.mean()\n    totals = totals / mean_total\n", B),
+    ("benign-kamb-radius-ifelse", ["C20"], "stats.py", "    if axial is True:\n        return 1 - r\n    return 1 - 2 * r", "    if axial is True:\n        radius = 1 - r\n    else:\n        radius = 1 - 2 * r\n    return radius", B),
+    ("benign-output-options-inverted", ["C19"], "io.py", "    if level not in output_opts:\n        # By default, output is produced for all simulated mineral phases.\n        output_opts[level] = list(phase_assemblage)\n        return\n    try:",
+     "    if level not in output_opts:\n        output_opts[level] = list(phase_assemblage)\n        return\n    requested = output_opts[level]\n    try:", B),
     ("benign-params-defaults-update", ["C19"], "io.py", "    for key, default in _core.DefaultParams().as_dict().items():\n        _params[key] = _params.get(key, default)", "    defaults = _core.DefaultParams().as_dict()\n    for key in defaults:\n        if key not in _params:\n            _params[key] = defaults[key]", B),
     ("benign-params-checks-swapped", ["C19"], "io.py", "    # Make sure all mineral phases are accounted for and valid.\n    if len(_params[\"phase_assemblage\"]) != len(_params[\"phase_fractions\"]):", "    n_phases = len(_params[\"phase_assemblage\"])\n    if n_phases != len(_params[\"phase_fractions\"]):", B),
     ("benign-fabric-handler-wider", ["C19"], "io.py", "    except (AttributeError, TypeError):\n        raise _err.ConfigError(\n            f\"invalid initial olivine fabric", "    except (AttributeError, TypeError, ValueError):\n        raise _err.ConfigError(\n            f\"invalid initial olivine fabric", B),
